@@ -571,8 +571,8 @@ def execute(store: Store, layout: str, variant: str, slot: str, name: bytes) -> 
 # --------------------------------------------------------------------------
 # concretisation of the abstract names (harness side: no semantics here)
 
-CONC = {'a': b'a', 'DOT': b'.', 'SEP': b'/', 'U': b'&AOk-', 'NUL': b'\x00'}
-SHOW = {'a': 'a', 'DOT': '.', 'SEP': '/', 'U': 'U', 'NUL': '\\0'}
+CONC = {'a': b'a', 'DOT': b'.', 'SEP': b'/', 'U': b'&AOk-', 'NUL': b'\x00', 'I': b'INBOX'}
+SHOW = {'a': 'a', 'DOT': '.', 'SEP': '/', 'U': 'U', 'NUL': '\\0', 'I': 'INBOX'}
 PATH_SLOTS = ('SELECT', 'EXAMINE', 'CREATE', 'DELETE', 'RENAMEfrom', 'RENAMEto',
               'STATUS', 'APPEND', 'COPY', 'MOVE')
 
@@ -581,11 +581,11 @@ def show(absname) -> str:
     return ''.join(SHOW[str(x)] for x in absname)
 
 
-def concretise(absname, layout: str, full: bool) -> list:
+def concretise(absname, layout: str, full: bool, long_too: bool = True) -> list:
     """[(variant, bytes)].  'exist': every letter is 'a' (user1 and user2 both
     hold a mailbox 'a'); 'fresh': 'b' (no such mailbox); 'utf8': the non-ASCII
     character as raw UTF-8 instead of modified UTF-7; 'long': the first letter
-    300 times; 'user2@i': the i-th component, if made of letters only, spelled
+    300 times; 'icase': INBOX in mixed case; 'user2@i': the i-th component, if made of letters only, spelled
     'user2' (the other user's directory name)."""
     syms = [str(x) for x in absname]
     out = [('exist', b''.join(CONC[s] for s in syms))]
@@ -593,9 +593,12 @@ def concretise(absname, layout: str, full: bool) -> list:
         return out
     if 'a' in syms:
         out.append(('fresh', b''.join(b'b' if s == 'a' else CONC[s] for s in syms)))
+    if 'a' in syms and (long_too or len(syms) <= 2):
         i = syms.index('a')
         out.append(('long', b''.join((b'a' * 300 if j == i else CONC[s])
                                      for j, s in enumerate(syms))))
+    if 'I' in syms:
+        out.append(('icase', b''.join(b'iNbOx' if s == 'I' else CONC[s] for s in syms)))
     if 'U' in syms:
         out.append(('utf8', b''.join(b'\xc3\xa9' if s == 'U' else CONC[s] for s in syms)))
     if layout == 'fs' and 'a' in syms:
@@ -624,6 +627,11 @@ def abstract_zone(store: Store, base: str, resolved: str, z: str) -> str:
         return z
     depth = resolved[len(base) + 1:].count('/') + 1
     return 'sibling' if depth == 1 else 'siblingIn'
+
+
+def slot_view(st: dict, slot: str) -> dict:
+    """the part of the TLC state that applies to this slot (WirePath.tla: Group)"""
+    return st['view']['create' if slot == 'CREATE' else 'plain']
 
 
 def judge(store: Store, base: str, ex: Exec, slot: str, st: dict):
@@ -659,7 +667,8 @@ def judge(store: Store, base: str, ex: Exec, slot: str, st: dict):
     if ex.refused:
         esc.setdefault(('outside', 'refused', '', ''),
                        f'write outside the scratch tree attempted (refused by the guard): {ex.refused[0]}')
-    allowed = {str(z) for z in st['allowed']} if slot in {str(s) for s in st['bad']} else set()
+    allowed = {str(z) for z in slot_view(st, slot)['allowed']} \
+        if slot in {str(s) for s in st['bad']} else set()
     escapes = [(k[0], v) for k, v in esc.items()]
     beyond = [(az, v) for az, v in escapes if az not in allowed]
     return escapes, beyond
@@ -667,7 +676,8 @@ def judge(store: Store, base: str, ex: Exec, slot: str, st: dict):
 
 def signature(layout: str, slot: str, st: dict, beyond: list) -> str:
     lay = 'pp' if layout == '++' else layout
-    dev = str(st['dev']) if slot in {str(s) for s in st['bad']} else 'ModelSaysConfined'
+    dev = str(slot_view(st, slot)['cls']) if slot in {str(s) for s in st['bad']} \
+        else 'ModelSaysConfined'
     sig = f'{lay}:{slot}:{dev}'
     if beyond:
         sig += '!' + '+'.join(sorted({az for az, _ in beyond}))
@@ -689,15 +699,21 @@ class DictWorld:
     def __init__(self):
         self.w = World('dict', users=USERS)
         w = self.w
-        for u in USERS:
+        # user2 first; what user1 does afterwards (its own set-up included) must
+        # not show in user2's dump
+        for u in ('user2', 'user1'):
             w.connect(u)
             Store._ok(w.login(u, u))
-            Store._ok(w.cmd(u, b'APPEND INBOX ' + lit(MSG[u])))
-            Store._ok(w.cmd(u, b'CREATE a'))
-            Store._ok(w.cmd(u, b'APPEND a ' + lit(MSG[u])))
-            Store._ok(w.cmd(u, b'SUBSCRIBE a'))
+            if u == 'user1':
+                self.baseline = self.dump()
+            for line in (b'APPEND INBOX ' + lit(MSG[u]), b'CREATE a',
+                         b'APPEND a ' + lit(MSG[u]), b'SUBSCRIBE a'):
+                resp = w.cmd(u, line)
+                if u == 'user2':
+                    Store._ok(resp)
         self.n = 0
-        self.baseline = self.dump()
+        self.setup_changed = [DUMP[i].decode() for i, d in enumerate(self.dump())
+                              if d != self.baseline[i]]
 
     def dump(self) -> list:
         out = []
@@ -737,6 +753,14 @@ def dict_campaign(run: Run, states: list, quick: bool) -> None:
         for variant, name in concretise(st['name'], 'dict', full=not quick)[:2]:
             dw = DictWorld()
             try:
+                if dw.setup_changed:
+                    run.violation(
+                        'dict backend: after user1 set up its own store (APPEND INBOX, CREATE a, '
+                        'APPEND a, SUBSCRIBE a), user2 observes a different '
+                        + ', '.join(dw.setup_changed),
+                        {'check': 'C08', 'backend': 'dict', 'slot': 'SETUP', 'name_hex': '',
+                         'abstract': ''}, 'dict:SETUP:OtherUserChanged')
+                    dw.baseline = dw.dump()
                 for slot in SLOTS:
                     old = signal.signal(signal.SIGALRM, _on_alarm)
                     signal.setitimer(signal.ITIMER_REAL, WATCHDOG_S)
@@ -811,9 +835,10 @@ def run_one(run: Run, store: Store, layout: str, variant_b: bool, slot: str,
         replay = {'check': 'C08', 'backend': 'maildir', 'layout': layout, 'store': wv,
                   'slot': slot, 'name_hex': name.hex(), 'name': name.decode('latin-1'),
                   'abstract': show(st['name']), 'variant': cvar,
-                  'model': {'zone': str(st['zone']), 'dev': str(st['dev']),
+                  'model': {'zone': str(slot_view(st, slot)['zone']),
+                            'cls': str(slot_view(st, slot)['cls']),
                             'bad': sorted(str(s) for s in st['bad']),
-                            'allowed': sorted(str(s) for s in st['allowed'])}}
+                            'allowed': sorted(str(s) for s in slot_view(st, slot)['allowed'])}}
         what = (f'maildir/{layout}: user1 sent {slot} with mailbox name {name[:40]!r}'
                 f'{"..." if len(name) > 40 else ""} -> {ex.cond[0] if ex.cond else "?"}; '
                 + '; '.join(v for _az, v in (beyond or escapes)[:4]))
@@ -824,7 +849,7 @@ def run_one(run: Run, store: Store, layout: str, variant_b: bool, slot: str,
             e['examples'].append({'name': name[:60].decode('latin-1'), 'store': wv,
                                   **summarise(ex, base)})
     elif predicted:
-        k = f'{lay}:{slot}:{st["dev"]}'
+        k = f'{lay}:{slot}:{slot_view(st, slot)["cls"]}'
         e = acc['not_observed'].setdefault(k, {'count': 0, 'examples': []})
         e['count'] += 1
         if len(e['examples']) < 3:
@@ -864,7 +889,7 @@ def maildir_campaign(run: Run, store: Store, states: list, rng, quick: bool,
         layout = '++' if str(st['layout']) == 'pp' else 'fs'
         interesting = bool(st['bad'])
         full = (not quick) or interesting
-        variants = concretise(st['name'], layout, full=full)
+        variants = concretise(st['name'], layout, full=full, long_too=not quick)
         if quick and not interesting:
             variants = variants[:1]
         elif any(str(x) == 'NUL' for x in st['name']) and not interesting:
@@ -878,7 +903,7 @@ def maildir_campaign(run: Run, store: Store, states: list, rng, quick: bool,
                 run_one(run, store, layout, False, slot, st, cvar, name, acc)
                 # the user's root as the target of DELETE / RENAME: also on a store
                 # where user1 holds no mailbox but INBOX (nothing stops the walk)
-                if str(st['zone']) == 'root' and slot in ('DELETE', 'RENAMEfrom') \
+                if str(slot_view(st, slot)['zone']) == 'root' and slot in ('DELETE', 'RENAMEfrom') \
                         and cvar in ('exist', 'fresh'):
                     run_one(run, store, layout, True, slot, st, cvar, name, acc)
         if time.time() > deadline:
@@ -897,10 +922,15 @@ def maildir_campaign(run: Run, store: Store, states: list, rng, quick: bool,
 
 
 def _initial_counterexample(out: str) -> str | None:
+    import re
     i = out.find('is violated by the initial state')
     if i < 0:
         return None
-    return ' '.join(out[i:i + 600].split('\n')[1:8])
+    lay = re.search(r'layout = "(\w+)"', out[i:])
+    nm = re.search(r'name = (<<[^>]*>>)', out[i:])
+    bad = re.search(r'bad = (\{[^}]*\})', out[i:])
+    return (f'layout={lay.group(1) if lay else "?"} name={nm.group(1) if nm else "?"} '
+            f'bad={bad.group(1) if bad else "?"}')
 
 
 def main(tier: str) -> int:
@@ -922,8 +952,8 @@ def main(tier: str) -> int:
         'every named directory exists (worst case), the run uses the real kernel',
         'temporary files of the control-file writer go to a scratch temp directory '
         '(tempfile.tempdir redirected); zone "tmp" is a C15 matter, not judged here',
-        'the literal name INBOX is outside the abstract alphabet (special-cased by pymap '
-        'before the layout is consulted)',
+        'INBOX appears only in the few ExtraNames of WirePath.tla (INBOX, INBOX/, INBOX/a, '
+        'INBOX/.., ./INBOX), not in the exhaustive alphabet',
         'user names / mailbox_path of the users are ordinary (user1, user2)']
 
     # 1. the model
@@ -957,7 +987,7 @@ def main(tier: str) -> int:
             run.machinery(f'{cfg}: the shared-store deviation is not rejected by Isolation '
                           f'({r.violated or r.error})')
             return run.finish()
-    states = select_states(graph, rng, quick, n_random=12)
+    states = select_states(graph, rng, quick, n_random=8)
     if not quick:
         for cfg in ('WirePath_asis6.cfg',):
             try:
@@ -1026,7 +1056,7 @@ def selftest(run: Run, store: Store, graph) -> None:
     esc2, beyond2 = judge(store, ex.base, ex, 'STATUS', fake)
     sig2 = signature('fs', 'STATUS', fake, beyond2) if esc2 else None
     fake3 = dict(st)
-    fake3['allowed'] = frozenset({'in', 'root'})
+    fake3['view'] = {g: dict(v, allowed=frozenset({'in', 'root'})) for g, v in st['view'].items()}
     esc3, beyond3 = judge(store, ex.base, ex, 'STATUS', fake3)
     sig3 = signature('fs', 'STATUS', fake3, beyond3) if esc3 else None
     ok = bool(escapes) == bool(st['bad']) and (
